@@ -5,6 +5,7 @@ import (
 	"go/types"
 	"sort"
 	"strings"
+	"sync"
 
 	"golang.org/x/tools/go/ssa"
 )
@@ -425,6 +426,11 @@ func (st *State) load(addr string, t types.Type, root string) Val {
 		for i := 0; i < s.NumFields(); i++ {
 			v.F = append(v.F, st.load("(fld "+addr+" "+intLit(int64(i))+")", s.Field(i).Type(), root))
 		}
+		// ghost state that travels with a value copy (math/big.Int: the mathematical value of the copy is the value of
+		// the original at the time of the copy) is carried as hidden trailing components of the struct value
+		for _, cg := range st.e.carriedGhosts(t) {
+			v.F = append(v.F, Val{K: cg.k, T: st.define("ldg", sortOfKind(cg.k), "(select "+st.heap(cg.heap)+" "+addr+")"), Ty: cg.t})
+		}
 		return v
 	case KArr:
 		a := t.Underlying().(*types.Array)
@@ -469,6 +475,15 @@ func (st *State) store(addr string, v Val, t types.Type) {
 		s := structOf(t)
 		for i := 0; i < s.NumFields(); i++ {
 			st.store("(fld "+addr+" "+intLit(int64(i))+")", v.F[i], s.Field(i).Type())
+		}
+		for j, cg := range st.e.carriedGhosts(t) {
+			if n := s.NumFields() + j; n < len(v.F) && v.F[n].T != "" {
+				st.setHeap(cg.heap, "(store "+st.heap(cg.heap)+" "+addr+" "+v.F[n].T+")")
+			} else {
+				// a value whose ghost component is not known (zero value, value from the environment): the ghost
+				// state of the overwritten object is unknown afterwards
+				st.setHeap(cg.heap, "(store "+st.heap(cg.heap)+" "+addr+" "+st.declare("hvg", sortOfKind(cg.k))+")")
+			}
 		}
 	case KArr:
 		a := t.Underlying().(*types.Array)
@@ -661,6 +676,9 @@ func valIte(c string, a, b Val) Val {
 	case KStruct, KTuple, KArr:
 		v := Val{K: a.K, Ty: a.Ty}
 		for i := range a.F {
+			if i >= len(b.F) {
+				break // (hidden ghost components known on one side only are dropped)
+			}
 			v.F = append(v.F, valIte(c, a.F[i], b.F[i]))
 		}
 		return v
@@ -741,5 +759,73 @@ func (st *State) sliceFacts(v Val) {
 		for _, f := range v.F {
 			st.sliceFacts(f)
 		}
+	}
+}
+
+var carriedMu sync.Mutex
+
+// carriedGhost: a ghost state keyed by *T that is copied along with value copies of T (see load/store of structs).
+type carriedGhost struct {
+	heap string
+	k    Kind
+	t    types.Type
+}
+
+// carriedGhosts returns the ghost states carried by value copies of t. Policy: ghost states with a single parameter
+// of type *T for a struct type T of package math/big (bigval). A shallow copy of a big.Int shares the digit array with
+// the original; that a later in-place mutation of one of them does not disturb the other is an assumption (listed).
+func (e *Engine) carriedGhosts(t types.Type) []carriedGhost {
+	n, ok := t.(*types.Named)
+	if !ok || n.Obj().Pkg() == nil || n.Obj().Pkg().Path() != "math/big" {
+		return nil
+	}
+	carriedMu.Lock()
+	defer carriedMu.Unlock()
+	if e.carried == nil {
+		e.carried = map[string][]carriedGhost{}
+	}
+	key := n.Obj().Pkg().Path() + "." + n.Obj().Name()
+	if cg, ok := e.carried[key]; ok {
+		return cg
+	}
+	var names []string
+	for name, g := range e.ghosts {
+		if g.IsState && len(g.Params) == 1 {
+			names = append(names, name)
+		}
+	}
+	sort.Strings(names)
+	var out []carriedGhost
+	for _, name := range names {
+		g := e.ghosts[name]
+		pt, err := e.resolveType(g.Params[0].Type, g.PkgPath, g.Imports)
+		if err != nil {
+			continue
+		}
+		p, ok := pt.(*types.Pointer)
+		if !ok || !types.Identical(p.Elem(), t) {
+			continue
+		}
+		_, k, rt, err := e.ghostStateSort(g)
+		if err != nil || (k != KInt && k != KBool) {
+			continue
+		}
+		out = append(out, carriedGhost{heap: "G$" + name, k: k, t: rt})
+	}
+	e.carried[key] = out
+	return out
+}
+
+// ghostPaths enumerates the struct nodes under an address pattern whose type carries ghost state by value.
+func (e *Engine) ghostPaths(addr string, t types.Type, f func(addr string, cg carriedGhost)) {
+	if kindOf(t) != KStruct {
+		return
+	}
+	for _, cg := range e.carriedGhosts(t) {
+		f(addr, cg)
+	}
+	s := structOf(t)
+	for i := 0; i < s.NumFields(); i++ {
+		e.ghostPaths("(fld "+addr+" "+intLit(int64(i))+")", s.Field(i).Type(), f)
 	}
 }
